@@ -225,6 +225,17 @@ def handleC09 (j : Json) : Json :=
               then [] else ["C09:weighted-avg"]
     let v4 := if jint (jget r "total") == satSum (o.map fun (_, c) => jint (jget c "cap")) then [] else ["C09:total"]
     v1 ++ v2 ++ v3 ++ v4
+  -- the order-independent clauses on every explicit-order fold (raw sums before the division)
+  let specFold (f : Json) : List String :=
+    let o := jobjList (jget f "nodes")
+    let v1 := if allNodes.all (fun n => (o.any (·.1 == n)) == (offeredByAll answers n && !answers.isEmpty)) && o.all (fun (n, _) => allNodes.contains n)
+              then [] else ["C09:offered"]
+    let v2 := if o.all (fun (n, c) => jint (jget c "cap") == minCap answers n) then [] else ["C09:cap-min"]
+    let v3 := if o.all (fun (n, c) => !offeredByAll answers n ||
+                 (near (weightedSum answers n (·.usage)) (jint (jget c "u")) && near (weightedSum answers n (·.rate)) (jint (jget c "r")) &&
+                  near (weightSum answers n) (jint (jget c "w"))))
+              then [] else ["C09:weighted-avg"]
+    v1 ++ v2 ++ v3
   let vOrder := match runs with
     | [] => []
     | r0 :: rest => if rest.all (fun r =>
@@ -234,8 +245,10 @@ def handleC09 (j : Json) : Json :=
           | some (_, x) => jint (jget c "cap") == jint (jget x "cap") && (jint (jget c "u") - jint (jget x "u")).natAbs ≤ 2000 &&
                            (jint (jget c "r") - jint (jget x "r")).natAbs ≤ 2000
           | none => false) && jint (jget r0 "total") == jint (jget r "total")) then [] else ["C09:order"]
-  let spec := ((runs.map specRun).flatten ++ vOrder).eraseDups
-  let cls := s!"merge{answers.length}" ++ (if mNodes.isEmpty then ":none" else if mNodes.length > 1 then ":many" else ":one")
+  let spec := ((runs.map specRun).flatten ++ (folds.map specFold).flatten ++ vOrder).eraseDups
+  let zeroW := answers.any fun a => a.any fun (_, c) => c.weight == 0
+  let cls := s!"merge{answers.length}" ++ (if mNodes.isEmpty then ":none" else if mNodes.length > 1 then ":many" else ":one") ++
+    (if zeroW then ":zero-weight" else "")
   verdict id (runsAgree && foldsAgree)
     (Json.mkObj [("total", ji mTotal), ("nodes", Json.mkObj (mNodes.map fun (n, c) =>
       (n, Json.mkObj [("cap", ji c.cap), ("u", ji (c.usage * scale12).floor), ("r", ji (c.rate * scale12).floor)])))])
